@@ -31,7 +31,7 @@ theorem doneRes_eq (k : Kind) : doneResOf k =
   cases k <;> rfl
 
 /-- … with and without preload -/
-theorem doneRes_preload : runPreloadedDone = runFullScanDone := rfl
+theorem doneRes_preload : runPreloadedDone = doneResOf .uri ∧ runFullScanDone = doneResOf .uri := ⟨rfl, rfl⟩
 
 /-- every `Run` closes its sink on return (`Sys.next` sets `closed` on `.ret` and on the Done branch) -/
 theorem all_close : httpRunCloses = true ∧ scenarioRunCloses = true ∧ grpcRunCloses = true ∧ decodeRunCloses = true :=
@@ -67,13 +67,19 @@ theorem replayStep_http (b : Bounds) (c : Bool) (n k pn : Nat) (hn : 0 < n) :
 
 theorem replayStep_scenario (b : Bounds) (c : Bool) (n k pn : Nat) (hn : 0 < n) :
     replayStep b c (List.range n) k = liftReplay n scenarioRunMap (scenarioRunStep b.passes b.limit n c k pn) := by
-  have h1 : scenarioRunStep = runPreloadedStep := rfl
-  have h2 : scenarioRunMap = httpRunMap := rfl
-  rw [h1, h2]; exact replayStep_http b c n k pn hn
+  have hget : (List.range n)[k % n]? = some (k % n) := by simp [Nat.mod_lt _ hn]
+  unfold replayStep scenarioRunStep
+  simp only [List.length_range, hget]
+  cases c <;> simp only [Bool.false_eq_true, if_false, if_true]
+  · repeat' split
+    all_goals simp_all [liftReplay, scenarioRunMap_eq, mapSentinel]
+    all_goals omega
+  · simp [liftReplay, scenarioRunMap]
 
 /-- an empty ammo list ends `Run` with "no ammo" before the loop (`Model.C08.runPreloaded`, `stepOf … .unloaded`) -/
 theorem replayPre_eq (n : Nat) :
-    runPreloadedPre n = (if n = 0 then some RunRes.errNoAmmo else none) ∧ scenarioRunPre n = runPreloadedPre n := ⟨rfl, rfl⟩
+    runPreloadedPre n = (if n = 0 then some RunRes.errNoAmmo else none) ∧
+    scenarioRunPre n = (if n = 0 then some RunRes.errNoAmmo else none) := ⟨rfl, rfl⟩
 
 /-! ## runFullScan -/
 
